@@ -3,7 +3,7 @@
 EXTENDS ShellWords, Json, IOUtils
 Rec == ndJsonDeserialize(IOEnv.TRACE)
 VARIABLES l, bad
-Verdict(r) == IF r.shell \in {"zsh", "bash"} THEN AcceptScript(r.shell, r.chars, r.items, r.groups, r.nfiles)
+Verdict(r) == IF r.shell \in {"zsh", "bash"} THEN AcceptScript(r.shell, r.chars, r.items, r.groups, r.nfiles, r.typednl)
               ELSE AcceptLines(r.lines, r.items, r.shell = "fish")
 Init == l = 1 /\ bad = 0
 Next == /\ l <= Len(Rec)
